@@ -7,6 +7,7 @@
   What is assumed: `sync.Mutex` semantics as modelled (unlock at 0 fatal, lock at 1 blocks); the coordinator calls
   constructor → Execute → (Run)? → Stop exactly as modelled in C09 (tied by running the real Coordinator.Execute with
   real process objects for every cell); other relayers' sessions do not share this relayer's store.
+  Retry rounds: `handleError` is not recursive, so a session makes at most two attempts (`retried_balanced`).
   Partial: a cancellation that races with `Party.Start()` can leave `Run` blocked on its out channel for ever (then
   neither the deferred unlock nor Stop is reached) — recorded as a known finding, outside this table model.
 -/
@@ -37,6 +38,16 @@ theorem signing_reads_under_lock (k : Kind) (hk : k.exclusive = false) (o : Outc
 theorem cells_inhabited (k : Kind) (o : Outcome) :
     sessionFrom true (table k) o 0 ≠ [] ∨ (o = .ctorerr ∧ k.exclusive = true) := by
   cases k <;> cases o <;> decide
+
+/-- **C10 (retried sessions).** With the retry rounds reachable through `Execute` (handleError classifies joined
+    errors): constructor, TWO activations of `Run` on the same object - each leaving at any conditional return or
+    running the protocol - and one `Stop`, on every combination of paths and for every kind (only the signing kinds
+    are retryable in the repository; the statement does not need that): the lock is balanced. -/
+theorem retried_balanced (k : Kind) : ∀ d ∈ retriedFrom (table k) 0, Balanced d := by
+  cases k <;> decide
+
+/-- non-vacuity: 36 path combinations for ECDSA signing, 16 for FROST signing -/
+example : (retriedFrom (table .esigning) 0).length = 36 ∧ (retriedFrom (table .fsigning) 0).length = 16 := by decide
 
 /-- **C10 (sequences).** Any sequence of sessions of any kinds with any outcomes on one store, every path: the
     accumulated effect is balanced — so no later session finds the lock leaked, and the relayer never aborts. -/
